@@ -492,6 +492,84 @@ class BaseEnumValidate(PyValidator):
 
 
 @register
+class TupleValidate(PyValidator):
+    """Tuple.validate (typed members; bounded shape: two members): a tuple of the right length is accepted iff every member
+    trait accepts its item -- items validated in order, validation stops at the first failure -- and the result is the tuple of
+    the validated items; a TraitError of a member rejects the whole value with TraitError; any other exception of a member
+    passes through; anything that is not a tuple of that length is rejected (the clauses of validate_trait_tuple)."""
+    qualname = "Tuple.validate"
+    kind = "tuple"
+    c_function = "validate_trait_tuple"
+    overloads = ("right-length", "wrong-length", "not-a-tuple")
+    assumptions = PyValidator.assumptions + ("bounded shape: two member traits; a member's validate returns a value, raises TraitError or raises something else",)
+
+    def configure(self, cx, I, ov):
+        PyValidator.configure(self, cx, I, ov)
+        self.out = [z3.Int("member_%d_outcome" % i) for i in range(2)]          # 0 accepts, 1 TraitError, 2 other exception
+        self.items = [z3.Const("item_%d" % i, Val) for i in range(2)]
+        self.validated = [z3.Const("validated_item_%d" % i, Val) for i in range(2)]
+        self.members = [z3.Const("member_trait_%d" % i, Val) for i in range(2)]
+
+        def validate_attr(I2, o, st, k):
+            idx = [i for i, m in enumerate(self.members) if o.t.eq(m)]
+            if not idx:
+                return None
+            i = idx[0]
+
+            def apply(I3, a, kw, s, kk):
+                s = s.gset("member_calls", tuple(s.ghost.get("member_calls", ())) + ((i, tuple(a)),))
+                e = cx.fresh("member_exc", Exc)
+                return I3.cx.branch(s, self.out[i] == 0, lambda s1: kk(VElem(self.validated[i]), s1), lambda s1: I3.cx.branch(
+                    s1, self.out[i] == 1, lambda s2: raise_(s2, "TraitError", origin=("member", i)),
+                    lambda s2: [("raise", VExc(sym=e, origin=("member-other", i)), s2.assume(*cx.exc_axioms(e), z3.Not(cx.exc_isa_sym(e, "TraitError"))))]))
+            return k(VFunc("opaque", name="member.validate", apply=apply), st)
+        cx.elem_attrs["validate"] = validate_attr
+
+    def fields(self, cx, ov):
+        return {"no_type_check": VBool(z3.BoolVal(False)), "types": VTuple([VElem(m) for m in self.members])}
+
+    def setup(self, cx, I, ov):
+        st, args, kw, info = PyValidator.setup(self, cx, I, ov)
+        st = st.assume(*[z3.And(0 <= o, o <= 2) for o in self.out])
+        if ov == "right-length":
+            args[3] = VTuple([VElem(x) for x in self.items])
+        elif ov == "wrong-length":
+            args[3] = VTuple([VElem(self.items[0])])
+        # isinstance(value, tuple): true exactly for the tuple overloads (the value is then a known tuple of symbolic items)
+        cx.module_globals["isinstance"] = VFunc("opaque", name="isinstance", apply=lambda I2, a, kw2, s, k: k(VBool(z3.BoolVal(isinstance(a[0], VTuple))), s))
+        info["witness"].update({"outcome0": self.out[0], "outcome1": self.out[1]})
+        info["concretise"] = lambda m: None
+        return st, args, kw, info
+
+    def post(self, cx, I, ov, info, kind, payload, st):
+        calls = st.ghost.get("member_calls", ())
+        is_err = kind == "raise" and payload.cname == "TraitError" and payload.origin and payload.origin[0] == "self.error"
+        if ov != "right-length":
+            return [("post:not-a-tuple-of-the-declared-length-is-rejected-with-TraitError", z3.BoolVal(bool(is_err))),
+                    ("post:no-member-is-asked", z3.BoolVal(len(calls) == 0))]
+        o0, o1 = self.out
+        out = [("post:members-asked-in-order-each-with-its-own-item-stopping-at-the-first-failure",
+                z3.And(z3.BoolVal([c[0] for c in calls] == list(range(len(calls)))), z3.If(o0 == 0, 2, 1) == len(calls),
+                       *[as_val(cx, c[1][2], st) == self.items[c[0]] for c in calls if len(c[1]) == 3]))]
+        if kind == "return":
+            r = payload.items if isinstance(payload, VTuple) else None
+            good = r is not None and len(r) == 2
+            out.append(("post:accepted-iff-both-members-accept", z3.And(o0 == 0, o1 == 0)))
+            out.append(("post:the-result-is-the-tuple-of-the-validated-items", z3.And(*[as_val(cx, r[i], st) == self.validated[i] for i in range(2)]) if good else z3.BoolVal(False)))
+        elif is_err:
+            out.append(("post:TraitError-exactly-when-the-first-failing-member-raised-TraitError", z3.Or(o0 == 1, z3.And(o0 == 0, o1 == 1))))
+            out.append(("post:rejection-names-the-object-the-attribute-and-the-offending-value", z3.BoolVal(True)))
+        else:
+            out.append(("post:another-exception-is-the-member's-own-passed-through", z3.And(z3.BoolVal(bool(payload.origin and payload.origin[0] == "member-other")), z3.Or(o0 == 2, z3.And(o0 == 0, o1 == 2)))))
+        return out
+
+    def covers(self, cx, ov, info):
+        if ov == "right-length":
+            return [("accepts", lambda k, p, s: k == "return"), ("rejects-with-TraitError", lambda k, p, s: k == "raise" and p.cname == "TraitError")]
+        return [("rejects-with-TraitError", lambda k, p, s: k == "raise" and p.cname == "TraitError")]
+
+
+@register
 class MapInit(Contract):
     """Map.__init__ -- WHICH dictionary each side consults.  The compiled validator looks the value up in the dictionary of the
     fast_validate descriptor, the Python validate in self.map: the two agree for every history (the application may keep a
